@@ -104,8 +104,9 @@ fn check_search(buf: &[u8]) -> CheckResult {
                 if again != Some(k as u64) {
                     return Err(viol!("search:history", "the same buffer searched in vain a moment ago and refilled: the pattern at {} is reported at {:?} ({})", k, again, hex_short(buf)));
                 }
-                let fresh = guard(|| dlt_message(buf, None, true).map(|(r, pm)| (r.len(), pm))).map_err(|p| Violation::from_panic("dlt_message", &p))?;
+                // (the reused buffer first: nothing else is parsed between the vain attempt and this one)
                 let reused = guard(|| dlt_message(&scratch, None, true).map(|(r, pm)| (r.len(), pm))).map_err(|p| Violation::from_panic("dlt_message", &p))?;
+                let fresh = guard(|| dlt_message(buf, None, true).map(|(r, pm)| (r.len(), pm))).map_err(|p| Violation::from_panic("dlt_message", &p))?;
                 if format!("{:?}", fresh) != format!("{:?}", reused) {
                     return Err(viol!("parse:history", "a reused buffer parses differently from a fresh one with the same bytes: {} vs {} ({})", short_dbg(&reused), short_dbg(&fresh), hex_short(buf)));
                 }
